@@ -243,6 +243,14 @@ Definition recorded_exactly (c : case) (pre post : ostate) (m : mutk) (a : args)
   | _, _ => false
   end.
 
+(* without a model of the mutation: whatever was added to any bug is authored by the user, histories only grow *)
+Definition growth_authored (pre post : ostate) (u : N) : bool :=
+  forallb (fun g => match find_g pre (g_id g) with
+                    | Some g0 => match strip_prefix (g_ops g0) (g_ops g) with Some new => all_authored u new | None => false end
+                    | None => all_authored u (g_ops g)
+                    end) (os_git post) &&
+  forallb (fun g0 => match find_g post (g_id g0) with Some _ => true | None => false end) (os_git pre).
+
 Definition C17_step_ok (c : case) (pre : ostate) (s : step) : bool :=
   let post := s_post s in
   (* queries keep working, with or without a user, and tell what the repository holds *)
@@ -255,7 +263,10 @@ Definition C17_step_ok (c : case) (pre : ostate) (s : step) : bool :=
   | RMut m a (Some u), PErr _ => same_repo pre post && negb (plainly_valid c pre m a u)
   | RMut m a (Some u), POk p au => recorded_exactly c pre post m a u p au
   | RUnknown (Some _), PErr _ => same_repo pre post
-  | RUnknown (Some _), (POk _ _ | POkOpaque) => true
+  | RUnknown (Some u), POkOpaque => memN u idents && growth_authored pre post u
+  | RUnknown (Some u), POk p au =>
+      memN u idents && growth_authored pre post u && forallb (fun x => x =? u) au &&
+      match find_g post (p_bug p) with Some g => snap_eqb (p_snap p) (g_snap g) | None => false end
   | RUpload a (Some u), PHttp code b =>
       if Nat.eqb code 200
       then memN u idents && u_repo_ok a &&
